@@ -19,6 +19,10 @@ def run(res, tier, seed):
     import vlib, corr
     small = corr.Runner(vlib.variant(name="small", **vlib.SMALL))
     engine.run_ops(res, "C01", OPS, seed + 1, n // 2, 300 if tier == "quick" else 700, runner=small, tag="/cfg=small")
+    # Tier B: the algorithm-faithful models (naive / M4RM / Strassen with the regenerated schedules / DJB / make_table) run
+    # with the constants of the build under test; tables and the DJB op list compared bit for bit
+    from props import tierb
+    tierb.run(res, "C01", tier, seed)
 
 
 def replay(res, path):
